@@ -100,9 +100,11 @@ class Rig:
             return "not-a-cookie"
         return None
 
-    def request(self, path, query, host, cookie_kind, cookie_raw=None):
+    def request(self, path, query, host, cookie_kind, cookie_raw=None, patch=True):
         """returns dict(status, body, eval_calls, inner_ran, logs, set_cookie); `cookie_raw` = a cookie
-        value to present as is (one the server issued earlier), overriding `cookie_kind`"""
+        value to present as is (one the server issued earlier), overriding `cookie_kind`.
+        `patch=False`: time.sleep / _log are left as the caller arranged them (concurrent use: the
+        per-request patching of module attributes is not thread-safe)"""
         from werkzeug import debug as debug_mod
         from werkzeug.test import create_environ
 
@@ -123,13 +125,20 @@ class Rig:
 
         before_eval, before_inner = len(self.spy.calls), self.inner_calls
         logs = []
-        with mock.patch.object(time, "sleep", lambda s: None), mock.patch.object(debug_mod, "_log", lambda *a, **k: logs.append(a)):
+
+        def run():
             it = self.app(environ, start_response)
             try:
-                body = b"".join(it)
+                return b"".join(it)
             finally:
                 if hasattr(it, "close"):
                     it.close()
+
+        if patch:
+            with mock.patch.object(time, "sleep", lambda s: None), mock.patch.object(debug_mod, "_log", lambda *a, **k: logs.append(a)):
+                body = run()
+        else:
+            body = run()
         return {
             "status": seen.get("status"),
             "body": body,
@@ -216,6 +225,85 @@ def observe(cmd, secret, host, cookie, frame, evalex, pin_on):
         return OUT_ODD
 
 
+def pin_auth_structure():
+    """facts read off the AST of DebuggedApplication._fail_pin_auth / pin_auth (no execution):
+    where the failure is counted relative to the penalty delay and the lock, and how the gate reads
+    the counter. Unknown shapes give False / 0, which breaks the obligation."""
+    import ast
+    import os
+
+    from extract_lib import REPO
+
+    src = open(os.path.join(REPO, "src", "werkzeug", "debug", "__init__.py")).read()
+    tree = ast.parse(src)
+    cls = next(n for n in tree.body if isinstance(n, ast.ClassDef) and n.name == "DebuggedApplication")
+    fn = {n.name: n for n in cls.body if isinstance(n, ast.FunctionDef)}
+
+    def is_counter_value(e):  # self._failed_pin_auth.value
+        return (isinstance(e, ast.Attribute) and e.attr == "value" and isinstance(e.value, ast.Attribute)
+                and e.value.attr == "_failed_pin_auth" and isinstance(e.value.value, ast.Name) and e.value.value.id == "self")
+
+    def counter_writes(node):
+        out = []
+        for n in ast.walk(node):
+            if isinstance(n, ast.Assign) and any(is_counter_value(t) for t in n.targets):
+                out.append(n)
+            elif isinstance(n, ast.AugAssign) and is_counter_value(n.target):
+                out.append(n)
+        return out
+
+    def sleep_calls(node):
+        return [n for n in ast.walk(node) if isinstance(n, ast.Call) and isinstance(n.func, ast.Attribute) and n.func.attr == "sleep"]
+
+    def pos(n):
+        return (n.lineno, n.col_offset)
+
+    facts = {"failHasUpdate": False, "failCountedInsideLock": False, "failCountedBeforeSleep": False, "failSleeps": False,
+             "compareGuardedByGate": False, "gateThreshold": 0, "wrongBranchCallsFail": False, "rightBranchResets": False,
+             "staleBranchCallsFail": False}
+    f = fn.get("_fail_pin_auth")
+    if f is not None:
+        writes = counter_writes(f)
+        sleeps = sleep_calls(f)
+        locks = [n for n in ast.walk(f) if isinstance(n, ast.With) and any(
+            isinstance(i.context_expr, ast.Call) and isinstance(i.context_expr.func, ast.Attribute) and i.context_expr.func.attr == "get_lock"
+            for i in n.items)]
+        locked = {id(w) for lk in locks for w in counter_writes(lk)}
+        facts["failHasUpdate"] = bool(writes)
+        facts["failSleeps"] = bool(sleeps)
+        facts["failCountedInsideLock"] = bool(writes) and all(id(w) in locked for w in writes)
+        # straight-line body: the update statement(s) come first, every delay after them; no loops
+        no_loops = not any(isinstance(n, (ast.For, ast.While, ast.Try)) for n in ast.walk(f))
+        facts["failCountedBeforeSleep"] = bool(writes) and no_loops and all(pos(w) < pos(sl) for w in writes for sl in sleeps)
+    p = fn.get("pin_auth")
+    if p is not None:
+        def calls_fail(stmts):
+            return any(isinstance(n, ast.Call) and isinstance(n.func, ast.Attribute) and n.func.attr == "_fail_pin_auth"
+                       for st in stmts for n in ast.walk(st))
+
+        for n in ast.walk(p):
+            if not isinstance(n, ast.If):
+                continue
+            t = n.test
+            # `trust is None` branch counts a failure
+            if isinstance(t, ast.Compare) and isinstance(t.left, ast.Name) and t.left.id == "trust" and isinstance(t.ops[0], ast.Is):
+                facts["staleBranchCallsFail"] = calls_fail(n.body)
+            # `elif self._failed_pin_auth.value > N: exhausted` with the PIN comparison only in its else
+            if isinstance(t, ast.Compare) and is_counter_value(t.left) and len(t.ops) == 1 and isinstance(t.ops[0], ast.Gt) \
+                    and isinstance(t.comparators[0], ast.Constant) and isinstance(t.comparators[0].value, int):
+                facts["gateThreshold"] = t.comparators[0].value
+                inner = [m for st in n.orelse for m in ast.walk(st) if isinstance(m, ast.If)]
+                cmp_ifs = [m for m in inner if any(isinstance(c, ast.Name) and c.id == "entered_pin" for c in ast.walk(m.test))]
+                all_cmp = [m for m in ast.walk(p) if isinstance(m, ast.If) and any(isinstance(c, ast.Name) and c.id == "entered_pin" for c in ast.walk(m.test))]
+                facts["compareGuardedByGate"] = len(cmp_ifs) == 1 and len(all_cmp) == 1 and not any(
+                    isinstance(c, ast.Name) and c.id == "entered_pin" for st in n.body for c in ast.walk(st))
+                if cmp_ifs:
+                    facts["wrongBranchCallsFail"] = calls_fail(cmp_ifs[0].orelse) and not calls_fail(cmp_ifs[0].body)
+                    facts["rightBranchResets"] = any(
+                        isinstance(w, ast.Assign) and isinstance(w.value, ast.Constant) and w.value.value == 0 for w in counter_writes(ast.Module(body=cmp_ifs[0].body, type_ignores=[])))
+    return facts
+
+
 def lean_chars(s):
     if s is None:
         return "none"
@@ -240,6 +328,7 @@ def gen_debugger():
     for i in range(0, len(outs), ROWLEN):
         chunk = [min(o, 15) for o in outs[i : i + ROWLEN]]
         packed.append("0x" + "".join("%x" % d for d in reversed(chunk)))
+    facts = pin_auth_structure()
     default_trusted = Rig(False, False).app.trusted_hosts
     hosts = []
     verdict_codes = []
@@ -264,6 +353,27 @@ def hosts : List (Option (List Char) × Nat × Nat) := {lean_list(hosts, 1)}
 
 /-- `DebuggedApplication.trusted_hosts` default -/
 def defaultTrusted : List (List Char) := [{", ".join("[" + ", ".join(f"Char.ofNat {ord(c)}" for c in t) + "]" for t in default_trusted)}]
+
+/-! facts read off the AST of `DebuggedApplication._fail_pin_auth` and `pin_auth` (tools/gen/c20.py) -/
+
+/-- `_fail_pin_auth` assigns `self._failed_pin_auth.value` -/
+def failHasUpdate : Bool := {lean_bool(facts["failHasUpdate"])}
+/-- every such assignment is inside a `with self._failed_pin_auth.get_lock():` block -/
+def failCountedInsideLock : Bool := {lean_bool(facts["failCountedInsideLock"])}
+/-- `_fail_pin_auth` is straight-line code in which every counter assignment lexically precedes every
+`time.sleep(...)` call: the failure is counted before the penalty delay starts -/
+def failCountedBeforeSleep : Bool := {lean_bool(facts["failCountedBeforeSleep"])}
+def failSleeps : Bool := {lean_bool(facts["failSleeps"])}
+/-- in `pin_auth` the only comparison with the entered PIN sits in the `else` of
+`elif self._failed_pin_auth.value > gateThreshold:` -/
+def compareGuardedByGate : Bool := {lean_bool(facts["compareGuardedByGate"])}
+def gateThreshold : Nat := {facts["gateThreshold"]}
+/-- the wrong-PIN branch (and only it) of that comparison calls `_fail_pin_auth()` -/
+def wrongBranchCallsFail : Bool := {lean_bool(facts["wrongBranchCallsFail"])}
+/-- the right-PIN branch sets the counter to 0 -/
+def rightBranchResets : Bool := {lean_bool(facts["rightBranchResets"])}
+/-- the `trust is None` (stale cookie) branch calls `_fail_pin_auth()` -/
+def staleBranchCallsFail : Bool := {lean_bool(facts["staleBranchCallsFail"])}
 
 def nCmd : Nat := {len(CMDS)}
 def nSec : Nat := {len(SECRETS)}
